@@ -151,6 +151,19 @@ pub fn run(ctx: &Ctx) -> CheckOutput {
             }
         }
     }
+    for kind in [Kind::Rsi, Kind::MyRsi] {
+        for n in if quick { vec![7usize, 9, 12] } else { vec![7, 8, 9, 11, 12, 16, 20] } {
+            let spec = Spec::un(kind, n, Spec::echo());
+            let depth = if quick { 5 } else { 7 };
+            jobs.push(Box::new(move || {
+                let mut st = Stats::default();
+                let sink = Sink::new();
+                ref_tree_from_bases::<Q>("C05", &spec, &bases(n), &Z3, depth, &mut st, &sink, &|h, hf, v, out| oracle::<Q>(kind, n, h, hf, v, out));
+                ref_tree_from_bases::<f64>("C05", &spec, &bases(n), &Z5, depth, &mut st, &sink, &|h, hf, v, out| oracle::<f64>(kind, n, h, hf, v, out));
+                JobOut { stats: st, viols: sink.take(), samples: vec![json!({"explorer":"TREE from base histories","view":spec.name(),"bases":3,"suffix_depth":depth})] }
+            }));
+        }
+    }
     let o = run_jobs(jobs, ctx.seed);
     CheckOutput {
         stats: o.stats,
